@@ -165,7 +165,7 @@ static void cxof(void)
     uint8_t msg[64], custom[64]; char name[80];
     hx_fill(msg, 64, pat, 4); hx_fill(custom, 64, pat, 5);
     for (int i = 0; i < 79; i++) { name[i] = (char)(pat == 0 ? 'A' + i % 26 : (hx_mix(hx_seed + i * 31 + pat) % 255) + 1); }
-    static const size_t dcl[] = {0, 16, 32, 64, 33, (size_t)1 << 29, ((size_t)1 << 29) - 1};
+    static const size_t dcl[] = {0, 16, 32, 64, 33, (size_t)1 << 29, ((size_t)1 << 29) - 1, ((size_t)1 << 29) + 1, (size_t)1 << 32, ((size_t)1 << 61) + 4, ((size_t)1 << 63) + 2, (size_t)-1};
     int maxname = tier ? 70 : 40, maxcust = tier ? 40 : 24;
     for (int nl = -1; nl <= maxname; nl++) {            /* -1: NULL name */
         char nb[80]; const char *np = 0;
@@ -198,7 +198,7 @@ static void cxof(void)
             }
         }
     }
-    hx_sample("a=%d cxof: name length NULL,0..%d x custom 0..%d x declared {0,16,32,64,33,2^29,2^29-1} x inlen x outlen", A, maxname, maxcust);
+    hx_sample("a=%d cxof: name length NULL,0..%d x custom 0..%d x declared {0,16,32,64,33,2^29,2^29-1,2^29+1,2^32,2^61+4,2^63+2,SIZE_MAX} x inlen x outlen", A, maxname, maxcust);
 }
 
 int main(int argc, char **argv)
